@@ -30,6 +30,12 @@ STRUCTS = {
     "chain3_vcost": {"vars": {"x": 2, "y": 2, "z": 2}, "cons": [["c0", ["x", "y"]], ["c1", ["y", "z"]]],
                      "varcosts": ["y"]},
     "single_vcost": {"vars": {"x": 2}, "cons": [], "varcosts": ["x"]},
+    # scopes listed descendant-first / in reverse lexical order (dimension order differs from the tree order)
+    "chain3_rev":  {"vars": {"x": 2, "y": 2, "z": 2}, "cons": [["c0", ["y", "x"]], ["c1", ["z", "y"]]]},
+    "triangle_rev": {"vars": {"x": 2, "y": 2, "z": 2},
+                     "cons": [["c0", ["y", "x"]], ["c1", ["z", "y"]], ["c2", ["z", "x"]]]},
+    "triangle_mix": {"vars": {"x": 2, "y": 2, "z": 2},
+                     "cons": [["c0", ["x", "y"]], ["c1", ["z", "y"]], ["c2", ["x", "z"]]]},
     "pair_dbl":    {"vars": {"x": 2, "y": 2}, "cons": [["c0", ["x", "y"]], ["c1", ["x", "y"]]]},
 }
 
